@@ -30,7 +30,7 @@ def num(s):
 
 
 def write_script(path, code=0, msg='scripted', x=None, pi=None, piq=None, obj=None, varstt=None, constt=None,
-                 iisvar=None, iiscon=None, throw=0, iiscong=None):
+                 iisvar=None, iiscon=None, throw=0, iiscong=None, extra=None):
     L = ['code %d' % code, 'msg %s' % msg]
 
     def fl(v):
@@ -48,6 +48,8 @@ def write_script(path, code=0, msg='scripted', x=None, pi=None, piq=None, obj=No
             L.append(k + ' ' + ' '.join(str(int(t)) for t in v))
     for g, v in (iiscong or {}).items():
         L.append('iiscong %d ' % int(g) + ' '.join(str(int(t)) for t in v))
+    for k, v in (extra or {}).items():        # sens_<field>, ray, dray: double vectors
+        L.append(k + ' ' + fl(v))
     if throw:
         L.append('throw %d' % throw)
     open(path, 'w').write('\n'.join(L) + '\n')
